@@ -17,9 +17,12 @@ def cchars(E, st, p, limit=1 << 16):
         if not is_sym(b):
             if b == 0: return out
         else:
-            if E.feasible(st, b == 0):
-                if E.feasible(st, b != 0): raise NeedFork(b == 0)
-                return out
+            nz = st.aux.get('nz', frozenset()); hk = b.get_id()
+            if hk not in nz:
+                if E.feasible(st, b == 0):
+                    if E.feasible(st, b != 0): raise NeedFork(b == 0)
+                    return out
+                st.aux['nz'] = nz | {hk}         # proven non-NUL under this path condition (which only grows)
         out.append(b)
     raise Unsupported('unterminated C string')
 
